@@ -20,6 +20,15 @@ var BVM = []byte{0xE0, 0x01, 0x00, 0xEA}
 // shape a text parser gives the unquoted top-level symbol $ion_1_0.
 func VersionMarker() *rm.Value { return &rm.Value{Type: rm.Symbol, Sym: rm.T("$ion_1_0")} }
 
+// Unsure is returned for constructs the specification leaves open; callers must
+// neither accept nor reject on its basis.
+type Unsure struct{ What string }
+
+func (u Unsure) Error() string { return "refbin: unsure: " + u.What }
+
+// IsUnsure reports whether err is an Unsure marker.
+func IsUnsure(err error) bool { _, ok := err.(Unsure); return ok }
+
 type dec struct {
 	b []byte
 }
@@ -417,6 +426,9 @@ func (d *dec) timestamp(pos, p, ve int) (rm.TS, error) {
 			if coef.Sign() != 0 {
 				return ts, errf(pos, "timestamp fraction >= 1")
 			}
+			// a zero fraction with a non-negative exponent: the specification does not say
+			// whether this is "no fraction" or an error; nobody may be judged on it
+			return ts, Unsure{fmt.Sprintf("offset %d: timestamp fraction 0d%d", pos, fe)}
 		} else {
 			if fe < -1000000 {
 				return ts, errf(pos, "timestamp fraction exponent %d unreasonable", fe)
